@@ -66,6 +66,10 @@ void compute_delj(double *dx, double *MInt, double *VInt,
             delj[ii] = (-epsj*wj + epsj*VInt[ii] - VInt[ii])/(wj - epsj*wj);
         else
             delj[ii] = 0.5;
+        /* Filter out edge cases (overflow of epsj), as the Python
+         * implementation in Integration._compute_delj does. */
+        if(isnan(delj[ii]) || isinf(delj[ii]))
+            delj[ii] = 0.5;
     }
 }
 
